@@ -86,8 +86,14 @@ static int err_by_name(const char *s) { for (int i = 0; errtab[i].n; i++) if (!s
 static const char *err_name(int e) { for (int i = 0; errtab[i].n; i++) if (errtab[i].v == e) return errtab[i].n; return "E?"; }
 
 /* ------------------------------------------------------------------ log */
+#define MAX_LOG_EVENTS 400000L   /* a program spinning on an injected persistent error must not fill the log device */
+static long log_events = 0;
 static void logf_(const char *fmt, ...) {
     if (!active) return;
+    if (++log_events > MAX_LOG_EVENTS) {
+        if (log_events == MAX_LOG_EVENTS + 1) { static const char t[] = "-1 log-truncated\n"; syscall(SYS_write, LOGFD, t, sizeof t - 1); }
+        return;
+    }
     char buf[1024];
     va_list ap; va_start(ap, fmt);
     int n = vsnprintf(buf, sizeof buf, fmt, ap);
